@@ -36,11 +36,13 @@ def load_baseline(pid):
     return None
 
 
-def native_batch(qual, n, seed, limit_s, case_timeout=20, known=()):
+def native_batch(qual, n, seed, limit_s, case_timeout=60, known=()):
     payload = json.dumps({"qual": qual, "gen": n, "seed": seed, "limit_s": limit_s, "case_timeout": case_timeout,
                           "known": [k.get("match", []) for k in known if k.get("match")]})
     env = dict(os.environ)
     env["PYTHONPATH"] = VERIF + os.pathsep + env.get("PYTHONPATH", "")
+    for _v in ("OMP_NUM_THREADS", "OPENBLAS_NUM_THREADS", "MKL_NUM_THREADS", "NUMEXPR_NUM_THREADS"):
+        env.setdefault(_v, "1")  # budgets are CPU time: one numerical thread per real-code run
     try:
         p = subprocess.run([sys.executable, "-m", "pyvc.nativerun"], input=payload, capture_output=True, text=True,
                            timeout=limit_s + 60, env=env, cwd=VERIF)
@@ -146,7 +148,7 @@ def check_property(pid, tier, seed):
         if nat is None or nat.gen is None:
             continue
         limit = getattr(prop, "NATIVE_LIMIT_S", {}).get(tier) or (40 if tier == "quick" else 600)
-        res = native_batch(q, n_cases, seed, limit, case_timeout=getattr(prop, "CASE_TIMEOUT", 20), known=known)
+        res = native_batch(q, n_cases, seed, limit, case_timeout=getattr(prop, "CASE_TIMEOUT", 60), known=known)
         entry = {"function": q, "bounded": True, "bound": nat.bound or f"{n_cases} generated inputs (seed {seed})",
                  "evaluations": res.get("evaluations", 0), "distinct": res.get("distinct", 0), "failures": len(res.get("failures", [])), "samples": res.get("samples", [])[:2]}
         if res.get("ok") is False and not res.get("failures"):
